@@ -6,6 +6,8 @@ Name pools are pairwise disjoint *by construction* and contain nothing that lexe
 """
 from __future__ import annotations
 
+import copy
+
 from hypothesis import strategies as st
 
 from . import exprs
@@ -150,6 +152,16 @@ def alternative(draw, kind, regs, env):
         if bc:
             alt['bytecode'] = bc
         d = draw(_decorator())
+        seen = env.get('deco_seen')
+        if seen is not None:
+            if seen and draw(st.booleans()):
+                # the same register with the same decoration on the other side, elsewhere in the ISA
+                r, t, pre = draw(st.sampled_from(seen))
+                if r in regs:
+                    alt['register'] = r
+                    d = {'type': t, 'is_prefix': not pre}
+            if d:
+                seen.append((alt['register'], d['type'], bool(d.get('is_prefix'))))
         if d:
             alt['decorator'] = d
     elif kind == 'indirect_register':
@@ -172,27 +184,12 @@ def alternative(draw, kind, regs, env):
         for r in iregs:
             idx[f'idx_{r}'] = {'type': 'register', 'register': r,
                                'bytecode': {'value': draw(unsigned_value(isz)), 'size': isz}}
-        extra = draw(st.sampled_from(['', '', '', '', 'num', 'num', 'nbc', 'nbc', 'nenum', 'enum']))
-        if extra == 'num' and kind == 'indexed_register':
-            idx['idx_num'] = {'type': 'numeric', 'bytecode': {'value': draw(unsigned_value(isz)), 'size': isz},
-                              'argument': draw(_argument(1, 24))}
-        elif extra == 'nbc':
-            # the index code is the value of a run-time expression
-            bottom = -(1 << (isz - 1)) if draw(st.booleans()) else 0
-            lo = draw(st.integers(bottom, (1 << isz) - 1))
-            idx['idx_nbc'] = {'type': 'numeric_bytecode',
-                              'bytecode': {'size': isz, 'min': lo, 'max': draw(st.integers(lo, (1 << isz) - 1))}}
-        elif extra == 'nenum':
-            keys = draw(st.lists(st.integers(0, 40), min_size=1, max_size=4, unique=True))
-            idx['idx_nen'] = {'type': 'numeric_enumeration',
-                              'bytecode': {'size': isz, 'value_dict': {k: draw(unsigned_value(isz)) for k in keys}}}
-        elif extra == 'enum' and env.get('keys'):
-            keys = draw(st.lists(st.sampled_from(env['keys']), min_size=1, max_size=3, unique=True))
-            a = draw(_argument(1, 16))
-            a['value_dict'] = {k: draw(unsigned_value(a['size'])) for k in keys}
-            idx['idx_enum'] = {'type': 'enumeration', 'argument': a,
-                               'bytecode': {'size': isz, 'value_dict': {k: draw(unsigned_value(isz)) for k in keys}}}
-        alt['index_operands'] = idx
+        extras = draw(st.sampled_from([[], [], [], ['num'], ['num'], ['nbc'], ['nbc'], ['nenum'], ['enum'],
+                                       ['enum', 'num'], ['num', 'enum'], ['enum', 'nbc']]))
+        for extra in extras:
+            _index_extra(draw, extra, idx, isz, kind, env)
+        # the order in which index alternatives are listed carries no meaning
+        alt['index_operands'] = {k: idx[k] for k in draw(st.permutations(sorted(idx)))}
         if kind == 'indirect_indexed_register':
             d = draw(_decorator())
             if d:
@@ -200,6 +197,28 @@ def alternative(draw, kind, regs, env):
     elif kind == 'empty':
         alt['bytecode'] = draw(_bytecode(force=True))
     return alt
+
+
+def _index_extra(draw, extra, idx, isz, kind, env):
+    if extra == 'num' and kind == 'indexed_register':
+        idx['idx_num'] = {'type': 'numeric', 'bytecode': {'value': draw(unsigned_value(isz)), 'size': isz},
+                          'argument': draw(_argument(1, 24))}
+    elif extra == 'nbc':
+        # the index code is the value of a run-time expression
+        bottom = -(1 << (isz - 1)) if draw(st.booleans()) else 0
+        lo = draw(st.integers(bottom, (1 << isz) - 1))
+        idx['idx_nbc'] = {'type': 'numeric_bytecode',
+                          'bytecode': {'size': isz, 'min': lo, 'max': draw(st.integers(lo, (1 << isz) - 1))}}
+    elif extra == 'nenum':
+        keys = draw(st.lists(st.integers(0, 40), min_size=1, max_size=4, unique=True))
+        idx['idx_nen'] = {'type': 'numeric_enumeration',
+                          'bytecode': {'size': isz, 'value_dict': {k: draw(unsigned_value(isz)) for k in keys}}}
+    elif extra == 'enum' and env.get('keys'):
+        keys = draw(st.lists(st.sampled_from(env['keys']), min_size=1, max_size=3, unique=True))
+        a = draw(_argument(1, 16))
+        a['value_dict'] = {k: draw(unsigned_value(a['size'])) for k in keys}
+        idx['idx_enum'] = {'type': 'enumeration', 'argument': a,
+                           'bytecode': {'size': isz, 'value_dict': {k: draw(unsigned_value(isz)) for k in keys}}}
 
 
 ALL_KINDS = ['numeric', 'register', 'indexed_register', 'indirect_register', 'indirect_indexed_register',
@@ -349,11 +368,26 @@ def full_isa(draw, max_mnemonics=3, max_variants=3, kinds=ALL_KINDS, address_siz
             e = draw(st.integers(s, top))
             zones[zn] = (s, e)
         cfg['predefined'] = {'memory_zones': [{'name': k, 'start': v[0], 'end': v[1]} for k, v in zones.items()]}
-    env = {'address_size': asz, 'zone_names': sorted(zones), 'zones': zones, 'keys': list(ENUM_KEYS)}
+    env = {'address_size': asz, 'zone_names': sorted(zones), 'zones': zones, 'keys': list(ENUM_KEYS), 'deco_seen': []}
     nsets = draw(st.integers(1, 3))
     sets = {}
     for i in range(nsets):
         sets[f'set_{i}'] = draw(operand_set(regs, env, kinds=kinds))
+    if regs and 'register' in kinds and draw(st.integers(0, 4)) == 0:
+        # one register carrying the same decoration before it in one operand set and after it in another
+        cands = [a for s_ in sets.values() for a in s_['operand_values'].values()
+                 if a['type'] == 'register' and a.get('decorator')]
+        if cands:
+            a = copy.deepcopy(draw(st.sampled_from(cands)))
+        else:
+            a = draw(alternative('register', regs, env))
+            a['decorator'] = {'type': draw(st.sampled_from(DECORATORS)), 'is_prefix': draw(st.booleans())}
+            sets[f'set_{len(sets)}'] = {'operand_values': {'regist_p': a}}
+            a = copy.deepcopy(a)
+        a['decorator']['is_prefix'] = not a['decorator'].get('is_prefix', False)
+        if 'bytecode' in a:
+            a['bytecode']['value'] = draw(unsigned_value(a['bytecode']['size']))
+        sets[f'set_{len(sets)}'] = {'operand_values': {'regist_q': a}}
     cfg['operand_sets'] = sets
     mns = draw(st.lists(st.sampled_from(MNEMONICS), min_size=1, max_size=max_mnemonics, unique=True))
     instrs = {}
